@@ -68,6 +68,14 @@ def run(ctx):
             ok, d = BO.check_run(r)
             ctx.ob("R08.2", "%s:%s:%d-byte %s" % (un, q, len(r), d["dir"]), ok, site=A.where(r[0][4]), detail=d,
                    what="%s in %s is not big-endian: shifts %s positions %s" % (d["data"], q, d["shifts"], d["byte_positions"]))
+            if ok:
+                try:
+                    bad, ncases = BO.check_values(r)
+                except FD.Unknown as e:
+                    raise AnalysisBroken("R08.2: sequence at %s not evaluable: %s" % (A.where(r[0][4]), e))
+                ctx.ob("R08.2", "%s:%s:%d-byte %s values" % (un, q, len(r), d["dir"]), not bad, site=A.where(r[0][4]),
+                       detail={"patterns": ncases, "mismatches": bad[:4]},
+                       what="%s of %s in %s does not reproduce the bytes (e.g. sign extension of bytes >= 0x80): %s" % (d["dir"], d["data"], q, bad[:2]))
 
     # ---- R08.3
     strides = {}
@@ -293,3 +301,28 @@ def run(ctx):
     ctx.ob("R08.5", "rtosc_bundle:precomputed-header-size", iv == seen.get("elements"), site=A.where(tot) if tot is not None else A.where(fnb),
            detail={"initial_total": iv, "first_element_offset": seen.get("elements")},
            what="rtosc_bundle pre-computes a header of %s bytes but writes its first element at offset %s" % (iv, seen.get("elements")))
+
+    bundle_measure_obligation(ctx, u, "R08.6")
+
+
+def bundle_measure_obligation(ctx, u, rule):
+    """the size pre-computation of rtosc_bundle measures every element exactly as the copy loop does"""
+    fnb = u.function("rtosc_bundle")
+    measures = []
+    for c in A.calls_in(u.body(fnb), "rtosc_message_length"):
+        a = A.kids(c)[1:]
+        a0 = A.strip_casts(a[0])
+        src0 = "va_arg" if a0.get("kind") == "VAArgExpr" else ("var" if a0.get("kind") == "DeclRefExpr" else A.src(a0))
+        # a variable initialised from va_arg counts as va_arg
+        if a0.get("kind") == "DeclRefExpr":
+            dd = u.by_id.get(a0["referencedDecl"]["id"])
+            if dd is not None and A.kids(dd) and A.strip_casts(A.kids(dd)[-1]).get("kind") == "VAArgExpr":
+                src0 = "va_arg"
+        try:
+            lim = FD.Eval().ev(a[1])
+        except FD.Unknown:
+            lim = A.src(a[1])
+        measures.append((src0, lim, A.where(c)))
+    ctx.ob(rule, "rtosc_bundle:sizer-measures-like-copier", len(measures) >= 2 and len({(m[0], m[1]) for m in measures}) == 1, site=A.where(fnb),
+           detail={"measurements": [list(m) for m in measures]},
+           what="rtosc_bundle measures its elements differently when sizing and when copying: %s" % [(m[0], m[1]) for m in measures])
